@@ -43,9 +43,10 @@ def state_probe(pb):
 def jac_probe(pb):
     import exactpack.solvers.nohblackboxeos.solution_tools.residual_functions as R
     eos = make_eos(pb["eos"])
-    ic = {"density": E.qf(pb["rho0"]), "velocity": E.qf(pb["u0"]), "pressure": 0, "symmetry": pb["symmetry"]}
+    ic = {"density": E.qf(pb["rho0"]), "velocity": E.qf(pb["u0"]), "pressure": E.qf(pb.get("p0", [0, 1])), "symmetry": pb["symmetry"]}
     if pb["eos"]["cls"] == "aluminum_eos":
         ic["density"] = eos.reference_density; ic["velocity"] = ic["velocity"] * 2.0e5     # an impact at km/s
+        ic["pressure"] = ic["pressure"] * 1.0e10
     fn = getattr(R, pb["fn"])(ic, eos)
     rho, e = E.qf(pb["rho"]) * ic["density"] * 2, E.qf(pb["e"]) * ic["velocity"] ** 2
     if pb["eos"]["cls"] == "aluminum_eos":
@@ -162,7 +163,8 @@ def run(tier):
     for fl in tv["failed"]:
         e, p = events[fl["i"] - 1], pbs[fl["i"] - 1]
         for clause in fl["failed"]:
-            cfg = {"kind": p["kind"], "fn": p.get("fn", ""), "symmetry": p.get("symmetry", -1), "rho": E.qf(p["rho"]) if "rho" in p else 0.0}
+            cfg = {"kind": p["kind"], "fn": p.get("fn", ""), "symmetry": p.get("symmetry", -1), "rho": E.qf(p["rho"]) if "rho" in p else 0.0,
+                   "p0": E.qf(p["p0"]) if "p0" in p else 0.0}
             verdict.fail({"cls": p["eos"]["cls"], "clause": clause, "cfg": cfg}, {"probe": p, "event": e, "clause": clause, "error": info.get(e["tid"])})
     rc = verdict.finish()
     distinct = {(p["kind"], p["eos"]["cls"], json.dumps(p["eos"]["k"], sort_keys=True), p.get("fn", ""), p.get("symmetry", "")) for p in pbs}
